@@ -69,8 +69,8 @@ def scale_bounds(f, k):
     return F.rebuild(f, [scale_bounds(c, k) for c in F.children(f)])
 
 
-def impl_values(monitor, f, data, n):
-    text = "out = " + F.to_text(f)
+def impl_values(monitor, f, data, n, text=None):
+    text = text or "out = " + F.to_text(f)
     vs = sorted(data)
     if monitor == "offd-reconf":
         # the object is reused after a change of the sampling period: bounds in seconds, period 1 s, then 500 ms
@@ -106,9 +106,9 @@ def sign_violation(vals, sats):
     return None
 
 
-def check_case(ctx, monitor, f, data, n, simple, rng):
-    text, out = impl_values(monitor, f, data, n)
-    rep = {"monitor": monitor, "spec": text, "formula": F.to_proto(f), "data": data, "n": n, "impl": out, "simple": simple}
+def check_case(ctx, monitor, f, data, n, simple, rng, text=None):
+    text, out = impl_values(monitor, f, data, n, text)
+    rep = {"text": text, "monitor": monitor, "spec": text, "formula": F.to_proto(f), "data": data, "n": n, "impl": out, "simple": simple}
     if out[0] != "ok":
         return Violation("%s raised %r on %s" % (monitor, out[1:], text), rep, stream="sign")
     vals = out[1]
@@ -186,6 +186,18 @@ def explore(ctx, rng, count):
                 a_ = rng.randint(0, 2)
                 x = ("tb2", "since", a_, a_ + rng.randint(0, 2), gp.formula(0), gp.formula(0))
             f = ("b", rng.choice(["and", "or", "implies"]), x, y) if rng.random() < 0.5 else ("b", rng.choice(["and", "or", "implies"]), y, x)
+        text = None
+        if monitor in ("offd", "past") and rng.random() < 0.15:
+            # the sugar `p unless[a,b] q` (the parser expands it to `always[0,b] p or p until[a,b] q`): the sign is judged on the
+            # expansion, the monitor gets the sugar
+            gu = F.Gen(rng, VARS, {"cmp", "bool", "not"}, max_bound=1)
+            p_, q_ = gu.formula(rng.choice([0, 1])), gu.formula(rng.choice([0, 1]))
+            a_ = rng.randint(0, 3)
+            b_ = a_ + rng.randint(0, 3)
+            f = ("b", "or", ("tb1", "alw", 0, b_, p_), ("tb2", "until", a_, b_, p_, q_))
+            text = "out = ((%s) unless[%d,%d] (%s))" % (F.to_text(p_), a_, b_, F.to_text(q_))
+            simple = False
+            ctx.count("unless-sugar")
         n = rng.randint(1, 10)
         data = F.gen_trace(rng, F.variables(f) or ["a"], n)
         if disc.known_region(ctx, {"monitor": monitor, "f": f}, REGIONS):
@@ -194,7 +206,7 @@ def explore(ctx, rng, count):
         ctx.evaluations += 1
         ctx.count("monitor:" + monitor)
         ctx.count("simple-preds" if simple else "general-preds")
-        v = check_case(ctx, monitor, f, data, n, simple, rng)
+        v = check_case(ctx, monitor, f, data, n, simple, rng, text)
         if v is None:
             ctx.traces_validated += 1
             if len(ctx.samples) < 3 and F.depth(f) >= 3:
@@ -223,7 +235,7 @@ def replay(ctx, obj):
         bad = s1[t] != s2[t] or (o1[1][t] > 0) != (o2[1][t] > 0) or (o1[1][t] < 0) != (o2[1][t] < 0) \
             or sign_violation(o2[1], s2) or sign_violation(o1[1], s1)
         return (not bad), ("verdict changes / sign unsound on the replayed perturbation" if bad else "verdict stable")
-    v = check_case(scratch, obj["monitor"], f, data, obj["n"], False, scratch.rng)
+    v = check_case(scratch, obj["monitor"], f, data, obj["n"], False, scratch.rng, obj.get("text"))
     return (v is None), (v.what if v else "sign is sound on the replayed case")
 
 
